@@ -354,3 +354,145 @@ def sym_dict_get(d, key, default=None, strict=False):
     if strict:
         raise KeyError("<symbolic key>")
     return default
+
+
+class IDict(dict):
+    """dict created by interpreted code ({} displays, dict()): a real dict while all keys are concrete; switches to an
+    association list (insertion order kept) as soon as a symbolic key is stored. Lookups then fork on key equality."""
+
+    __symx_model__ = True
+
+    def __init__(self, *a, **kw):
+        dict.__init__(self)
+        self._pairs = None
+        if a or kw:
+            src = a[0] if a else ()
+            it = src.items() if hasattr(src, "items") else src
+            for k, v in it:
+                self[k] = v
+            for k, v in kw.items():
+                self[k] = v
+
+    def _symbolic(self):
+        return self._pairs is not None
+
+    def _switch(self):
+        if self._pairs is None:
+            self._pairs = list(dict.items(self))
+            dict.clear(self)
+
+    def _find(self, k):
+        for i, (k2, _) in enumerate(self._pairs):
+            if truth(key_eq(k, k2)):
+                return i
+        return -1
+
+    def __setitem__(self, k, v):
+        from . import values as V
+
+        k = V.unwrap(k)
+        if self._pairs is None and V.deep_concrete(k):
+            return dict.__setitem__(self, k, v)
+        self._switch()
+        i = self._find(k)
+        if i >= 0:
+            self._pairs[i] = (self._pairs[i][0], v)
+        else:
+            self._pairs.append((k, v))
+
+    def __getitem__(self, k):
+        from . import values as V
+
+        k = V.unwrap(k)
+        if self._pairs is None:
+            if V.deep_concrete(k):
+                return dict.__getitem__(self, k)
+            return sym_dict_get(self, k, strict=True)
+        i = self._find(k)
+        if i < 0:
+            raise KeyError("<key>")
+        return self._pairs[i][1]
+
+    def get(self, k, default=None):
+        try:
+            return self[k]
+        except KeyError:
+            return default
+
+    def __contains__(self, k):
+        try:
+            self[k]
+            return True
+        except KeyError:
+            return False
+
+    def __len__(self):
+        return dict.__len__(self) if self._pairs is None else len(self._pairs)
+
+    def __iter__(self):
+        return dict.__iter__(self) if self._pairs is None else iter([k for k, _ in self._pairs])
+
+    def keys(self):
+        return dict.keys(self) if self._pairs is None else [k for k, _ in self._pairs]
+
+    def values(self):
+        return dict.values(self) if self._pairs is None else [v for _, v in self._pairs]
+
+    def items(self):
+        return dict.items(self) if self._pairs is None else list(self._pairs)
+
+    def copy(self):
+        return IDict(self.items())
+
+    def update(self, other=(), **kw):
+        it = other.items() if hasattr(other, "items") else other
+        for k, v in it:
+            self[k] = v
+        for k, v in kw.items():
+            self[k] = v
+
+    def setdefault(self, k, d=None):
+        if k in self:
+            return self[k]
+        self[k] = d
+        return d
+
+    def pop(self, k, *d):
+        if self._pairs is None:
+            return dict.pop(self, k, *d)
+        i = self._find(k)
+        if i < 0:
+            if d:
+                return d[0]
+            raise KeyError("<key>")
+        return self._pairs.pop(i)[1]
+
+    def __eq__(self, other):
+        if self._pairs is None and not (isinstance(other, IDict) and other._symbolic()):
+            return dict.__eq__(self, other)
+        raise Unsupported("== on a mapping with symbolic keys (use mapping_eq)")
+
+    __hash__ = None
+
+    def __repr__(self):
+        return dict.__repr__(self) if self._pairs is None else "IDict(%r)" % (self._pairs,)
+
+
+def _idict_concrete(v):
+    if isinstance(v, IDict) and v._symbolic():
+        return False
+    if isinstance(v, (SymOrderedDict, SymMappingProxy)):
+        return False
+    return NOT_HANDLED
+
+
+symx.CONCRETE_HOOKS.append(_idict_concrete)
+
+
+def m_dict(*a, **kw):
+    return IDict(*a, **kw)
+
+
+m_dict.__symx_model__ = True
+symx.BUILTIN_MODELS["dict"] = m_dict
+symx.SHIM_TO_BUILTIN[m_dict] = dict
